@@ -46,6 +46,8 @@ class RefDevice:
         self.fired = {}        # fault kind -> count (counted at the point of effect)
         self.last_response = {}  # cid -> last response packet bytes (for dup_prev)
         self.app_override = None  # callable(dev, req, frames, directive) -> frames
+        self.raw_payload_handler = None  # callable(conn, decoded, key): protocol-level V3 payloads (C05)
+        self.raw_frame_handler = None    # callable(conn, frame, key, directive) -> [frames] | None (C02/C03)
         self.net = None
 
     # --------------------------------------------------------------------------------------
@@ -156,6 +158,9 @@ class RefDevice:
             ev = self._ev(conn, "enc_req", counter=dec["counter"], pad=dec["pad"], key_index=kidx,
                           latest_key=(kidx == len(st["keys"]) - 1), payload=dec["payload"], raw=pkt)
             self._check_counter(conn, dec["counter"])
+            if self.raw_payload_handler is not None:
+                self.raw_payload_handler(conn, dec, st["keys"][kidx])
+                return
             try:
                 d = codec.v2_decode(dec["payload"], strict=True)
             except codec.RefError as e:
@@ -220,8 +225,7 @@ class RefDevice:
         if d.get("hdr_flip") is not None:       # flips in the 8 bytes before the 64-byte body
             bit = d["hdr_flip"] % 64
             pkt[bit // 8] ^= 1 << (bit % 8)
-            genuine = False
-            self._fire("hs_hdr_flip")
+            self._fire("hs_hdr_flip")     # the body is genuine: the device did issue this key
         if genuine:
             st["keys"].append(codec.v3_session_key(self.key, nonce))
             st["hs_ok"] = True
@@ -275,6 +279,12 @@ class RefDevice:
             self.violations.append(("frame", str(e), frame))
             req = None
         frames = []
+        if self.raw_frame_handler is not None:
+            # transport-level checks: arbitrary (non-AC) frames in both directions
+            if self.violations and self.violations[-1][0] == "frame":
+                self.violations.pop()
+            req = None
+            frames = self.raw_frame_handler(conn, frame, key, d)
         if req is not None:
             self._ev(conn, "request", ftype=req["type"], body=req["body"], msg_id=req["msg_id"], frame=frame)
             frames = self.handle(req, d)
